@@ -503,6 +503,17 @@ fn history_case(w: &mut W, is_req: bool, cap: usize, backend: Backend, steps: &[
     if last.len_before != cap {
         w.st.count("probe_on_shrunk_headers_slice", 1);
     }
+    // the documented loop: as long as no earlier call completed, nothing may have changed the
+    // headers slice, so the probe must behave like a fresh value over the ORIGINAL array
+    let earlier_complete = h[..h.len() - 1].iter().any(|x| x.res.st.is_complete());
+    if !earlier_complete {
+        w.st.count("readme_loop_histories", 1);
+        if last.len_before != cap {
+            let d = format!("no earlier call completed, yet headers.len() went from {} to {} before the probe ({} earlier calls)", cap, last.len_before, steps.len() - 1);
+            w.st.violation(Violation { property: "C18".into(), rule: "non_complete_call_changed_headers_slice".into(), detail: d, replay: replay(), signature: None });
+            return true;
+        }
+    }
     w.st.count(&format!("probe_outcome:{}", HIST_NAMES[fresh.res.st.hist_idx()]), 1);
     if !last.res.same_outcome(&fresh.res) {
         let d = format!(
